@@ -638,3 +638,24 @@ def cursor_loops_advance(prog, rule, files, floor=1):
     if n < floor:
         raise AnalysisBroken('only %d cursor loops found in %s' % (n, ', '.join(sorted(files))))
     return n
+
+
+def recipient_param(fn, default='connection'):
+    """Name of the parameter of a delivery helper (send_one_message) that stands for the connection the copy goes to:
+    the DBusConnection parameter that is neither `sender` nor `addressed_recipient` by the role the policy gate is told
+    (its 3rd and 4th arguments).  Found by role so that reordering or renaming parameters changes nothing; the rules
+    then demand that the gate's proposed recipient, the descriptor test and the send all name this same parameter."""
+    from .cfg import is_ref
+    conns = [p['name'] for p in fn.params if 'DBusConnection' in (p.get('t') or '')]
+    told = set()
+    for b, i, c in fn.calls('bus_context_check_security_policy'):
+        for k in (2, 3):
+            if len(c['args']) > k and is_ref(c['args'][k]):
+                told.add(c['args'][k]['name'])
+    rest = [n for n in conns if n not in told]
+    return rest[0] if len(rest) == 1 else default
+
+
+def param_index_of_type(fn, tsub, default):
+    idx = [i for i, p in enumerate(fn.params) if tsub in (p.get('t') or '')]
+    return idx[0] if len(idx) == 1 else default
